@@ -1,8 +1,190 @@
+(* C10/Props.v — property theorems only.  Property C10: binary headers are faithful to their bytes,
+   byte order and repairs.  Each theorem is closed by `exact <lemma>` and followed by
+   Print Assumptions.  hclass ranges over Analyze, Spm99, Spm2, Nifti1, Nifti1Pair, Nifti2, Nifti2Pair,
+   Mgh, Ecat; their layouts, code tables, class constants and check batteries are the regenerated
+   Tables.v. *)
 From Coq Require Import ZArith List Bool Lia.
-From NV Require Import Base.Bytes C10.Layout C10.LayoutLemmas C10.Tables C10.Model.
+From NV Require Import Base.Bytes C10.Layout C10.LayoutLemmas C10.Tables C10.Model C10.Lemmas.
 Import ListNotations.
 Open Scope Z_scope.
+
+(* the regenerated tables are well-formed: fields contiguous from offset 0 (NumPy offsets =
+   cumulative sizes), names distinct, widths legal, total size = itemsize; no two checks of a
+   battery write the same field slot; same-named fields of Analyze-family layouts agree in count
+   and have kinds the conversion model covers *)
+Theorem C10_tables_wf : forall c,
+  wf_layout (layout_of c) = true /\ layout_size (layout_of c) = size_of c /\ wf_bat (battery_of c)
+  /\ (forall d, analyze_family c = true -> analyze_family d = true ->
+        layouts_compat (layout_of c) (layout_of d) = true).
+Proof.
+  intros c. split; [apply layouts_wf|]. split; [apply layouts_size|]. split; [apply batteries_wf|].
+  intros d. apply family_compat.
+Qed.
+Print Assumptions C10_tables_wf.
+
+(* a header built from bytes serialises to the same bytes: every layout, either byte order,
+   every byte string of the layout size *)
 Theorem C10_bytes_roundtrip : forall L be b, bytes_ok b -> zlen b = layout_size L ->
   encode_struct L be (decode_struct L be b) = b.
 Proof. exact encode_decode. Qed.
 Print Assumptions C10_bytes_roundtrip.
+
+(* and field values survive serialisation *)
+Theorem C10_decode_encode : forall L be h, hdr_fits L h = true ->
+  decode_struct L be (encode_struct L be h) = h /\ zlen (encode_struct L be h) = layout_size L.
+Proof. intros L be h H. split; [now apply decode_encode_exact|now apply encode_length]. Qed.
+Print Assumptions C10_decode_encode.
+
+(* the sequential codec reads every field at the offset NumPy reports for it *)
+Theorem C10_field_at_offset : forall c be b f, In f (layout_of c) ->
+  getf (fid f) (decode_struct (layout_of c) be b)
+  = dec_elems be (fwidth f) (fcount f) (skipn (Z.to_nat (foff f)) b).
+Proof. exact class_field_at_offset. Qed.
+Print Assumptions C10_field_at_offset.
+
+(* klass(bytes, endianness, check=False): every class but MGH keeps the bytes and the requested
+   byte order; wrong sizes are refused *)
+Theorem C10_from_bytes_faithful : forall c nat_be en b, c <> Mgh ->
+  (zlen b = size_of c ->
+     exists e, from_bytes c nat_be en b = Some (e, b) /\ (forall e0, en = Some e0 -> e = e0))
+  /\ (zlen b <> size_of c -> from_bytes c nat_be en b = None).
+Proof.
+  intros c nat_be en b Hc. split; [now apply from_bytes_faithful|now apply from_bytes_wrong_size].
+Qed.
+Print Assumptions C10_from_bytes_faithful.
+
+(* MGH.  FULL STATEMENT (from_bytes Mgh .. b = Some (true, b) for every b of the right size) is
+   false of the faithful model: the constructor resets the affine fields when goodRASFlag is 0
+   (finding S-C10a, see C10_mgh_from_bytes_refuted).  Proved: goodRASFlag <> 0. *)
+Theorem C10_mgh_from_bytes_partial : forall nat_be en b, bytes_ok b -> zlen b = size_of Mgh ->
+  sval 2 (getf f_goodRASFlag (decode_struct (layout_of Mgh) true b)) <> 0 ->
+  from_bytes Mgh nat_be en b = Some (true, b).
+Proof. exact mgh_from_bytes. Qed.
+Print Assumptions C10_mgh_from_bytes_partial.
+
+Theorem C10_mgh_from_bytes_refuted : exists b b', bytes_ok b /\ zlen b = size_of Mgh
+  /\ from_bytes Mgh false None b = Some (true, b') /\ list_eqb b' b = false.
+Proof.
+  exists (repeat 7 28 ++ [0; 0] ++ repeat 7 80). eexists.
+  split; [|split; [reflexivity|split; [vm_compute; reflexivity|]]].
+  - apply Forall_forall. intros x Hx. apply in_app_or in Hx as [Hx|Hx]; [|apply in_app_or in Hx as [Hx|Hx]].
+    + apply repeat_spec in Hx. subst. unfold byte_ok. lia.
+    + destruct Hx as [<-|[<-|[]]]; unfold byte_ok; lia.
+    + apply repeat_spec in Hx. subst. unfold byte_ok. lia.
+  - vm_compute. reflexivity.
+Qed.
+Print Assumptions C10_mgh_from_bytes_refuted.
+
+(* a byte-swapped copy has the other byte order, field-wise identical values, compares equal in
+   both directions, and swapping back returns the original (every class but MGH, whose headers
+   are always big endian: swapping is refused) *)
+Theorem C10_swap_equal : forall c nat_be e b, c <> Mgh -> bytes_ok b -> zlen b = size_of c ->
+  exists b', as_byteswapped c nat_be None (e, b) = Some (negb e, b')
+    /\ zlen b' = size_of c
+    /\ fields_of c (negb e, b') = fields_of c (e, b)
+    /\ hdr_eq c (e, b) (negb e, b') = true /\ hdr_eq c (negb e, b') (e, b) = true
+    /\ as_byteswapped c nat_be None (negb e, b') = Some (e, b).
+Proof. exact swap_equal. Qed.
+Print Assumptions C10_swap_equal.
+
+Theorem C10_mgh_swap_refused : forall nat_be o, as_byteswapped Mgh nat_be None o = None
+  /\ as_byteswapped Mgh nat_be (Some false) o = None
+  /\ as_byteswapped Mgh nat_be (Some true) o = copy_hdr Mgh nat_be o.
+Proof. exact mgh_swap_refused. Qed.
+Print Assumptions C10_mgh_swap_refused.
+
+(* byte order detection: for every Analyze-family header valid in byte order e (dim[0] in 0..7, and
+   sizeof_hdr right when dim[0] = 0), whatever all its other bytes and whatever the platform's
+   byte order, guessed_endian of the bytes is e; ECAT: sw_version = 74; MGH: always big *)
+Theorem C10_endian_detected : forall c nat_be e b, bytes_ok b -> zlen b = size_of c ->
+  (analyze_family c = true ->
+     0 <= sval (dim_w c) (getf f_dim (decode_struct (layout_of c) e b)) <= 7 ->
+     (sval (dim_w c) (getf f_dim (decode_struct (layout_of c) e b)) = 0 ->
+      sval 4 (getf f_sizeof_hdr (decode_struct (layout_of c) e b)) = sizeof_hdr_of c) ->
+     guessed_endian c nat_be b = e)
+  /\ (c = Ecat -> hd 0 (getf f_sw_version (decode_struct (layout_of c) e b)) = 74 ->
+      guessed_endian c nat_be b = e)
+  /\ (c = Mgh -> guessed_endian c nat_be b = true).
+Proof.
+  intros c nat_be e b Hb Hl. split; [|split].
+  - intros Hf. now apply endian_detected_analyze.
+  - intros ->. now apply endian_detected_ecat.
+  - intros ->. reflexivity.
+Qed.
+Print Assumptions C10_endian_detected.
+
+(* check batteries, on the decoded field values of any header that fits its layout (every
+   header decoded from bytes of the right size does: decode_fits).  None = a check raised. *)
+Theorem C10_fix_idempotent : forall c h h1 r1, hdr_fits (layout_of c) h = true ->
+  check_hdr c true h = Some (h1, r1) -> exists r2, check_hdr c true h1 = Some (h1, r2).
+Proof. exact hdr_fix_idempotent. Qed.
+Print Assumptions C10_fix_idempotent.
+
+Theorem C10_fix_noop_on_clean : forall c h h0 r0, check_hdr c false h = Some (h0, r0) ->
+  h0 = h /\ (Forall (fun r => level r = 0) r0 -> exists r1, check_hdr c true h = Some (h, r1)).
+Proof.
+  intros c h h0 r0 H. split; [now apply (hdr_check_only_pure c h h0 r0)|].
+  intros Hz. now apply (hdr_fix_noop_on_clean c h h0 r0).
+Qed.
+Print Assumptions C10_fix_noop_on_clean.
+
+(* after check_fix, check_only reports only problems of the classes no check repairs (unknown /
+   unsupported datatype, bitpix without datatype, bad magic, offset not a multiple of 16, SPM origin) *)
+Theorem C10_fix_clears : forall c h h1 r1, hdr_fits (layout_of c) h = true ->
+  check_hdr c true h = Some (h1, r1) ->
+  exists r2, check_hdr c false h1 = Some (h1, r2)
+    /\ Forall (fun r => level r = 0 \/ unfixable (rmsg r) = true) r2.
+Proof. exact hdr_fix_clears. Qed.
+Print Assumptions C10_fix_clears.
+
+(* check_fix reports the same (level, message class) list as check_only *)
+Theorem C10_fix_reports_agree : forall c h h1 r1 h0 r0,
+  check_hdr c true h = Some (h1, r1) -> check_hdr c false h = Some (h0, r0) ->
+  map (fun r => (level r, rmsg r)) r1 = map (fun r => (level r, rmsg r)) r0.
+Proof. exact hdr_reports_agree. Qed.
+Print Assumptions C10_fix_reports_agree.
+
+(* decoded headers fit, so the four theorems above apply to every header object *)
+Theorem C10_decoded_fits : forall c be b, bytes_ok b -> zlen b = size_of c ->
+  hdr_fits (layout_of c) (decode_struct (layout_of c) be b) = true.
+Proof. intros c be b Hb Hl. apply decode_fits; [assumption|]. rewrite layouts_size. lia. Qed.
+Print Assumptions C10_decoded_fits.
+
+(* conversion dst.from_header(src, check=False).  FULL STATEMENT also has: get_shape dst h' =
+   get_shape src h and get_zooms dst h' = the cast source zooms; those two clauses are not proved
+   (FreeSurfer shape hacks, float casts) and are covered by the correspondence check and the
+   direct predicate only.  Proved: the datatype code and every same-named field of equal width and
+   kind that the conversion does not re-derive (magic, datatype, bitpix, dim, pixdim, glmin). *)
+Theorem C10_convert_preserves_partial : forall src dst h h',
+  from_header src dst false h = COk h' -> hdr_fits (layout_of src) h = true ->
+  (forall i fs fd, find_field i (layout_of src) = Some fs -> find_field i (layout_of dst) = Some fd ->
+     fwidth fs = fwidth fd -> fkind fs = fkind fd -> memZ i rederived = false ->
+     getf i h' = getf i h)
+  /\ (analyze_family dst = true -> find_field f_datatype (layout_of src) <> None ->
+      sval 2 (getf f_datatype h') = sval 2 (getf f_datatype h)).
+Proof.
+  intros src dst h h' H Hfit. split.
+  - intros i fs fd. now apply (convert_preserves_field src dst h h' i fs fd).
+  - intros Hf Hs. now apply (convert_preserves_dtype src dst h h').
+Qed.
+Print Assumptions C10_convert_preserves_partial.
+
+(* non-vacuity: a populated big-endian NIfTI-1 header with three seeded defects (sizeof_hdr,
+   bitpix, negative pixdim) is repaired, the repair is stable, and its byte order is detected *)
+Definition nv_hdr : hdr :=
+  setf f_sizeof_hdr [0] (setf f_bitpix [7]
+    (setf f_pixdim [f_one 4; f_neg 4 (f_one 4); 0; f_one 4; f_one 4; f_one 4; f_one 4; f_one 4]
+       (setf f_dim [3; 4; 5; 6; 1; 1; 1; 1] (default_hdr Nifti1)))).
+Example C10_nonvacuous :
+  hdr_fits (layout_of Nifti1) nv_hdr = true
+  /\ (exists h1 r1, check_hdr Nifti1 true nv_hdr = Some (h1, r1) /\ h1 <> nv_hdr
+        /\ map (fun r => (level r, rmsg r)) r1
+           = [(30, MSizeof); (0, MNone); (10, MBpMismatch); (35, MPixZeroNeg); (0, MNone); (0, MNone);
+              (0, MNone); (0, MNone); (0, MNone)]
+        /\ check_hdr Nifti1 false h1 = Some (h1, repeat rep_ok 9))
+  /\ guessed_endian Nifti1 false (encode_struct (layout_of Nifti1) true nv_hdr) = true.
+Proof.
+  split; [vm_compute; reflexivity|]. split; [|vm_compute; reflexivity].
+  eexists. eexists. split; [vm_compute; reflexivity|]. split; [vm_compute; discriminate|].
+  split; vm_compute; reflexivity.
+Qed.
